@@ -228,7 +228,7 @@ def build_runner(pid, work):
     return rc == 0, out, exe, hooks, dt
 
 
-def run_runner(exe, pid, work, outdir, seed, tier, replay=None, corpus=True):
+def run_runner(exe, pid, work, outdir, seed, tier, replay=None, corpus=True, timeout=None):
     os.makedirs(outdir, exist_ok=True)
     cmd = [exe, "-out", outdir, "-seed", str(seed), "-tier", tier]
     if replay:
@@ -238,7 +238,10 @@ def run_runner(exe, pid, work, outdir, seed, tier, replay=None, corpus=True):
         if os.path.isdir(cdir):
             cmd += ["-corpus", cdir]
     env = dict(GOENV, VERIF_REPO=REPO, VERIF_WORK=work, VERIF_DIR=VERIF)
-    return sh(cmd, PROPS.get(pid, {}).get("runner_timeout", 1500), cwd=work, env=env)
+    tmo = timeout or PROPS.get(pid, {}).get("runner_timeout_" + tier, PROPS.get(pid, {}).get("runner_timeout", 420 if tier == "quick" else 3000))
+    if tier == "quick" and not timeout:
+        tmo = min(tmo, 600)   # a quick run that needs longer is stuck: the in-flight case is reported
+    return sh(cmd, tmo, cwd=work, env=env)
 
 
 def evaluate(outdir):
@@ -322,6 +325,12 @@ def main():
     work = os.path.join(VERIF, "work", pid)
     shutil.rmtree(work, ignore_errors=True)
     os.makedirs(work)
+    if a.replay:
+        # replay files usually live in replays/<pid>/, which is wiped below: keep a private copy
+        a.replay = os.path.abspath(a.replay)
+        keep = os.path.join(work, "replay_input.jsonl")
+        shutil.copy(a.replay, keep)
+        a.replay = keep
     shutil.rmtree(os.path.join(VERIF, "replays", pid), ignore_errors=True)
     ev_path = os.path.join(VERIF, "evidence", pid + ".json")
     os.makedirs(os.path.dirname(ev_path), exist_ok=True)
@@ -389,9 +398,15 @@ def main():
                               % (len(corr_fail), json.dumps(corr_fail[0][1])[:600]))
         # 4. something is broken but no judged case fails: enlarge the search
         if broken and not judge_fail and not a.replay:
+            # bounded: at most three thorough-size generations and SEARCH_BUDGET seconds in total
+            t_search = time.time()
+            budget = 300 if tier == "quick" else 1500
             for extra in range(1, 4):
+                left = budget - (time.time() - t_search)
+                if left < 20:
+                    break
                 od = os.path.join(work, "search%d" % extra)
-                rc, rout, _ = run_runner(exe, pid, work, od, seed + 7919 * extra, "thorough", corpus=False)
+                rc, rout, _ = run_runner(exe, pid, work, od, seed + 7919 * extra, "thorough", corpus=False, timeout=left)
                 if rc != 0 or not os.path.exists(os.path.join(od, "stats.json")):
                     break
                 r2 = evaluate(od)
